@@ -1,7 +1,7 @@
 /-
 C06 — the Newton iteration of the REPAIRED backward functions of the extended Neuber law
-(`ExtendedNeuber.load` / `load_secondary_branch`, tools/fixes/C06-neuber-backward-derivative.diff and
-C06-neuber-backward-newton-start.diff).
+(`ExtendedNeuber.load` / `load_secondary_branch`, repo commits c6e709f (derivative) and
+ba2ed2a (start of the Newton iteration)).
 
 `f(L) = _load_implicit(L, σ) = ε(σ) − (L/σ)·K_p·e*(L)` for a fixed stress `σ > 0`.
 
